@@ -383,13 +383,63 @@ instance (c : Cfg) : Decidable c.Good := by unfold Cfg.Good; infer_instance
 /-- H will not act on this instance any more -/
 def hFinal (h : HPc) : Bool :=
   match h with
-  | .failed _ | .joined | .detached | .dropped => true
-  | _ => false
+  | .fresh => false
+  | .sp1 => false
+  | .sp2 => false
+  | .sp3 => false
+  | .sp4 => false
+  | .uTls => false
+  | .uStack => false
+  | .uBox true => false
+  | .uBox false => false
+  | .uTsm true => false
+  | .uTsm false => false
+  | .failed true => true
+  | .failed false => true
+  | .handle => false
+  | .wLoad true => false
+  | .wLoad false => false
+  | .wSys true => false
+  | .wSys false => false
+  | .wParked true => false
+  | .wParked false => false
+  | .jRead => false
+  | .jFree => false
+  | .joined => true
+  | .dCas => false
+  | .dFree => false
+  | .detached => true
+  | .dropped => true
 
 def isFailed (h : HPc) : Bool :=
   match h with
-  | .failed _ => true
-  | _ => false
+  | .fresh => false
+  | .sp1 => false
+  | .sp2 => false
+  | .sp3 => false
+  | .sp4 => false
+  | .uTls => false
+  | .uStack => false
+  | .uBox true => false
+  | .uBox false => false
+  | .uTsm true => false
+  | .uTsm false => false
+  | .failed true => true
+  | .failed false => true
+  | .handle => false
+  | .wLoad true => false
+  | .wLoad false => false
+  | .wSys true => false
+  | .wSys false => false
+  | .wParked true => false
+  | .wParked false => false
+  | .jRead => false
+  | .jFree => false
+  | .joined => false
+  | .dCas => false
+  | .dFree => false
+  | .detached => false
+  | .dropped => false
 
 /-- a complete execution of one instance: H is done with it and, if a thread was created, the thread is gone
 and the kernel has finished its exit -/
@@ -399,8 +449,33 @@ def complete (x : Inst) : Bool :=
 /-- spawn returned Ok(handle) -/
 def spawnedOk (h : HPc) : Bool :=
   match h with
-  | .fresh | .sp1 | .sp2 | .sp3 | .sp4 | .uTls | .uStack | .uBox _ | .uTsm _ | .failed _ => false
-  | _ => true
+  | .fresh => false
+  | .sp1 => false
+  | .sp2 => false
+  | .sp3 => false
+  | .sp4 => false
+  | .uTls => false
+  | .uStack => false
+  | .uBox true => false
+  | .uBox false => false
+  | .uTsm true => false
+  | .uTsm false => false
+  | .failed true => false
+  | .failed false => false
+  | .handle => true
+  | .wLoad true => true
+  | .wLoad false => true
+  | .wSys true => true
+  | .wSys false => true
+  | .wParked true => true
+  | .wParked false => true
+  | .jRead => true
+  | .jFree => true
+  | .joined => true
+  | .dCas => true
+  | .dFree => true
+  | .detached => true
+  | .dropped => true
 
 /-- heap blocks / mappings of this instance that are live -/
 def b2n (b : Bool) : Nat := if b then 1 else 0
